@@ -80,6 +80,7 @@ def replay_cfg(chk, g, ik, cf, P, layout, inplace, boolin, rng, max_states, devi
            "delay_via_setter": bool(report and rng.random() < 0.4)}
     if not hdr["delay_via_setter"]:
         hdr["dt_via_setter"] = bool(report and rng.random() < 0.3)
+    hdr["f64"] = bool(report and rng.random() < 0.3)          # a third of the replays on a synapse moved to float64
     mism = []
 
     def on_mismatch(sig, rep):
@@ -88,7 +89,8 @@ def replay_cfg(chk, g, ik, cf, P, layout, inplace, boolin, rng, max_states, devi
         if isinstance(obs, dict) and obs.get("t") == "err":
             sig["raised"] = obs.get("e")
         rep = dict(rep, cf=cf, params=P.asdict(), layout=[batch, list(shape)], inplace=inplace, boolin=boolin,
-                   graph=g.name, delay_via_setter=hdr["delay_via_setter"], dt_via_setter=hdr.get("dt_via_setter", False))
+                   graph=g.name, delay_via_setter=hdr["delay_via_setter"], dt_via_setter=hdr.get("dt_via_setter", False),
+                   f64=hdr.get("f64", False))
         mism.append((sig, rep))
         if report:
             chk.violation(sig, rep)
@@ -357,7 +359,8 @@ def replay(path: str) -> int:
     if sig.get("site", "").startswith("graph-replay"):
         P = SynParams(**rep["params"])
         hdr = {"cf": rep["cf"], "params": P, "shape": tuple(rep["layout"][1]), "batch": rep["layout"][0],
-               "inplace": rep["inplace"], "boolin": rep["boolin"], "delay_via_setter": rep.get("delay_via_setter", False), "dt_via_setter": rep.get("dt_via_setter", False)}
+               "inplace": rep["inplace"], "boolin": rep["boolin"], "delay_via_setter": rep.get("delay_via_setter", False), "dt_via_setter": rep.get("dt_via_setter", False),
+               "f64": rep.get("f64", False)}
         return symcommon.rerun_graph_record(PID, doc, lambda: SynImpl(hdr), SynMatcher(P))
     print(f"[{PID}] replay: re-run ./check {PID} (trace / specification-level record: {sig})")
     return 1
